@@ -1,12 +1,64 @@
 """C07: $$ and $n address the right stack slots (attribute evaluation over the validated derivation)."""
-from vlib import Inconclusive
+import glob
+import json
+import os
+
+from vlib import Inconclusive, add_tlc_cov, log, require_clean, run_tlc_shards
 import runcamp
+
+
+def text_level(ctx):
+    """ReduceCode.tla: the cases of the generated reduce function, cut out of all five generated variants of grammars
+    whose actions are arbitrary texts, against the substitution the specification defines (ConfReduceCode.tla);
+    the scanner machine of ReduceScan.tla is model-checked against the function first."""
+    out = ctx.sub("acts")
+    r = ctx.vh(["actobs", "-cli", ctx.cli(), "-out", out, "-seed", ctx.seed, "-corpus", os.path.join(os.path.dirname(os.path.dirname(os.path.dirname(os.path.abspath(__file__)))), "corpus"),
+                "-nrand", ctx.pick(150, 1500), "-nfeat", ctx.pick(60, 600), "-nlong", ctx.pick(40, 400), "-nexpr", ctx.pick(30, 300),
+                "-shards", 16], timeout=3000)
+    log(r.stdout.strip().splitlines()[-1])
+    shards = sorted(glob.glob(os.path.join(out, "acts-*.json")))
+    nvar = ncases = 0
+    for sf in shards:
+        for o in json.load(open(sf)):
+            for v in o["variants"]:
+                nvar += 1
+                ncases += len(v["cases"])
+                if not v["ok"]:
+                    raise Inconclusive("text level: %s %s: %s" % (o["id"], v["variant"], v["note"]))
+    if ncases < 1000:
+        raise Inconclusive("text level: only %d cases cut" % ncases)
+    results = run_tlc_shards(ctx, "ReduceScan.tla", "ReduceScan.cfg", shards[:1], timeout=600)
+    require_clean(results)
+    add_tlc_cov(ctx, results, "substitution scanner machine vs Subst and vs the two-pass reading, all texts <= 6 over {$,0,1,2,a}")
+    results = run_tlc_shards(ctx, "ConfReduceCode.tla", "ConfReduceCode.cfg", shards, timeout=ctx.pick(600, 3000), extra=["-continue"])
+    require_clean(results)
+    add_tlc_cov(ctx, results, "reduce-function cases of the generated files vs ReduceCode.tla")
+    texts = json.load(open(os.path.join(out, "texts.json")))
+    for sf, res in results:
+        obs = json.load(open(sf))
+        byid = {}
+        for name, vars_, txt in res.violations:
+            o = obs[int(vars_["m"]) - 1]
+            byid.setdefault(o["id"], (o, []))[1].append(name)
+        for oid, (o, names) in byid.items():
+            key = "text:%s:%s" % (oid, ",".join(sorted(set(names))))
+            d = ctx.replay_dir(key)
+            open(os.path.join(d, "grammar.y"), "w").write(texts[oid])
+            json.dump({"property": "C07", "kind": "reduce-text", "seed": ctx.seed, "invariants": sorted(set(names)), "obs": o},
+                      open(os.path.join(d, "meta.json"), "w"), indent=1)
+            ctx.violation(key, d, "generated reduce function of %s violates %s (rules with arbitrary action texts; see grammar.y)" % (
+                oid, ",".join(sorted(set(names)))))
+    ctx.cov["evaluations"] += ncases
+    ctx.cov["reduce_cases_checked_as_text"] = ncases
+    ctx.cov["generated_files_cut"] = nvar
 
 
 def run(ctx, replay):
     out, recs, rs = runcamp.run_level(ctx, replay, "RunTrace.tla", runcamp.INVS["C07"], flavour="values")
     if not replay and rs.get("verdict_accept", 0) < ctx.pick(800, 8000):
         raise Inconclusive("too few accepting runs of valued grammars: %s" % rs)
+    if not replay:
+        text_level(ctx)
     ctx.cov["rule"] = ("grammars with a three-field union, random tags on tokens and nonterminals and random arithmetic / concatenating "
                        "actions over random subsets of $1..$n; every accepting run's printed value is compared with EvalAct applied "
                        "bottom-up along the replayed derivation; non-trivial = accepting runs")
